@@ -174,6 +174,13 @@ def _const(d):
 
 # ---------------------------------------------------------------------------- methods
 def call_method(eng, st, recv, meth, e, recv_expr):
+    if isinstance(recv.ty, TOpt) and not isinstance(recv, E.Ref):
+        # method call on an Optional value: Python raises AttributeError on None, so "not None" is an obligation
+        eng.oblige(st, f"receiver_not_none@{e.lineno}", z3.Not(recv.ty.is_none(recv.t)), e.lineno, kind="safety")
+        recv = Val(recv.ty.elem, recv.ty.val(recv.t))
+        unwrapped = True
+    else:
+        unwrapped = False
     args = [eng.ev(a, st) for a in e.args]
     kw = {k.arg: eng.ev(k.value, st) for k in e.keywords}
     if isinstance(recv, E.Ref):
@@ -249,6 +256,18 @@ def _m_list_pop(eng, st, r, a, kw, e):
     return Val(ty.elem, ty.at(r.t)[n - 1]), new
 
 
+def _m_list_remove(eng, st, r, a, kw, e):
+    """list.remove(x): one occurrence of x disappears, every other element stays (order irrelevant for the uses in scope)"""
+    ty = r.ty
+    x = eng.coerce(a[0], ty.elem, st)
+    new = ty.fresh("removed")
+    st.assume(ty.len(new.t) == ty.len(r.t) - 1)
+    facts = eng.reg._hook("list_remove_facts", eng, st, ty, r.t, new.t, x.t, e)
+    if facts is None:
+        raise OutOfSubset(f"list.remove on {ty}")
+    return NONE, new
+
+
 def _m_set_add(eng, st, r, a, kw, e):
     x = a[0]
     if isinstance(r.ty, TEmpty):
@@ -296,6 +315,7 @@ _METHODS = {
     ("TList", "append"): _m_list_append,
     ("TEmpty:list", "append"): _m_list_append,
     ("TList", "pop"): _m_list_pop,
+    ("TList", "remove"): _m_list_remove,
     ("TList", "copy"): _m_copy,
     ("TSet", "add"): _m_set_add,
     ("TEmpty:set", "add"): _m_set_add,
